@@ -9,6 +9,14 @@ BASE = ("Trusted: Coq 8.16.1 kernel (vm_compute; no native_compute), no axioms (
 TECH = "machine-checked proof (Coq) + translator-regenerated tables + model/implementation correspondence"
 
 CLAIMS = {
+    "C01": ("Coq theorems, one per format, over all inputs in the stated variant relation and all epochs: gzip (same bytes outside MTIME, both later than the epoch) -> identical output; ar (any number of "
+            "members, same data, headers agreeing on name/mode/size/terminator, timestamps later than the epoch, owner ids as an archiver writes them) -> identical output; zip/jar: extra fields and "
+            "creator version never reach the output, members agreeing on all but a later-than-epoch time are written identically, hence whole archives; javadoc: a header line is written as a function "
+            "of its stamp-stripped form, the stamp's version/date text never survives, a date/dc.created tag gets the epoch's date whatever later date it carried; pyc: same header and same object "
+            "tree -> same bytes wherever flags and back-references were. gzip with FHCRC (stored CRC16 depends on MTIME and is not recomputed) is the recorded finding F6. Tied to the code by groups "
+            "of 2-4 variants of generated artefacts per format run through the real handlers and the extracted model (outputs must be byte-identical within a group and equal to the model's).",
+            "Modelled, not verified: the javadoc statements are per line (stamp after a '<'-free prefix, tag at line start); whole-document and mid-line variants are decided by the variant-group runs; "
+            "that flag variants of a pyc parse to the same tree is established by the runs (model and implementation agree on every variant).", "DESIGN.md section 5-C01"),
     "C02": ("PARTIAL. Coq theorems about the model of the marshal reader and writer (type-code dispatch, code-object field order with version guards, flag bit, depth limit, skip bound "
             "regenerated from pyc.rs): the header is copied verbatim; the output is a function of the header and of the object tree the reader builds (not of flag / back-reference placement); "
             "files of interpreters without reference flags (Python < 3.4) are never rewritten. The round trip 'the rewritten payload decodes, under CPython's rules for that version, to the same tree' "
